@@ -17,7 +17,7 @@
  *   WRITE <h> <file> LP|MPS     mpq_QSwrite_prob   -> "WRITE <rv> <nmsg>" then "W <enc log message>"*
  *   READ <h> <file> LP|MPS      mpq_QSget_prob with error memory -> "READ OK|FAIL <nerr> <nwarn>" then "E <type> <line> <enc desc>"*
  *   READP <h> <file> LP|MPS     mpq_QSread_prob (the plain public entry)
- *   TRYREAD <file> LP|MPS       C11: child with alarm(10): read; if a problem comes back write it (LP, MPS), solve, free
+ *   TRYREAD <file> LP|MPS [s]   C11: child with alarm(s, default 10): read; if a problem comes back write it (LP, MPS), solve, free
  *                               -> "TRYREAD PROB <nerr> <ncols> <nrows> w<rv><rv> s<rv>:<status>" | "TRYREAD FAIL <nerr>"
  *                                | "TRYREAD CRASH <how> <enc first sanitizer line>" | "TRYREAD TIMEOUT"
  *   TRYBASIS <h> <file>         C11: child: mpq_QSread_basis + mpq_QSread_and_load_basis on problem h
@@ -332,16 +332,34 @@ static int in_child (const char *tag, void (*fn) (void *), void *arg, int secs)
 	if (WIFEXITED (st) && WEXITSTATUS (st) == 0) { unlink (errf); return 0; }
 	if (WIFSIGNALED (st) && WTERMSIG (st) == SIGALRM) { printf ("%s TIMEOUT\n", tag); unlink (errf); return 1; }
 	{
-		char line[600], first[600];
+		char line[600], first[600], frames[2600];
+		int nfr = 0;
 		FILE *e = fopen (errf, "r");
-		first[0] = 0;
+		first[0] = 0; frames[0] = 0;
 		if (e)
 		{
 			while (fgets (line, sizeof line, e))
 			{
-				if (strstr (line, "ERROR: AddressSanitizer") || strstr (line, "runtime error") || strstr (line, "SUMMARY"))
-				{ snprintf (first, sizeof first, "%s", line); break; }
-				if (!first[0] && line[0] != '\n') snprintf (first, sizeof first, "%s", line);
+				char *in_;
+				if (!first[0] && (strstr (line, "ERROR: AddressSanitizer") || strstr (line, "runtime error")))
+					snprintf (first, sizeof first, "%s", line);
+				else if (first[0] && strlen (first) < 400 && (!strncmp (line, "WRITE of size", 13) || !strncmp (line, "READ of size", 12)))
+				{
+					size_t l = strlen (first);
+					snprintf (first + l, sizeof first - l, "%.60s", line);
+				}
+				/* "    #1 0x... in func file:line" : keep the first few function names of the first stack */
+				if (nfr < 18 && line[0] == ' ' && strstr (line, " #") && (in_ = strstr (line, " in ")))
+				{
+					char fn[120];
+					if (sscanf (in_ + 4, "%119s", fn) == 1)
+					{
+						size_t l = strlen (frames);
+						snprintf (frames + l, sizeof frames - l, "%s%s", nfr ? "<" : "", fn);
+						nfr++;
+					}
+				}
+				if (nfr && line[0] == '\n') nfr = 99;	/* end of first stack */
 			}
 			fclose (e);
 		}
@@ -349,6 +367,8 @@ static int in_child (const char *tag, void (*fn) (void *), void *arg, int secs)
 		if (WIFSIGNALED (st)) printf ("%s CRASH sig%d ", tag, WTERMSIG (st));
 		else printf ("%s CRASH exit%d ", tag, WEXITSTATUS (st));
 		put_enc (stdout, first, -1);
+		putchar (' ');
+		put_enc (stdout, frames, -1);
 		putchar ('\n');
 	}
 	return 1;
@@ -493,7 +513,7 @@ int main (int argc, char **argv)
 		{
 			tryarg a;
 			a.path = path_of (qsx_tok[1]); a.type = qsx_tok[2];
-			in_child ("TRYREAD", do_tryread, &a, 10);
+			in_child ("TRYREAD", do_tryread, &a, qsx_ntok > 3 ? atoi (qsx_tok[3]) : 10);
 		}
 		else if (!strcmp (op, "READ") || !strcmp (op, "READP"))
 		{
